@@ -424,31 +424,31 @@ class DateTime(datetime.datetime, Date):
         """
         Format the instance as RFC 822.
         """
-        return self._to_string("rfc822")
+        return self._to_string("rfc822", locale="en")
 
     def to_rfc850_string(self) -> str:
         """
         Format the instance as RFC 850.
         """
-        return self._to_string("rfc850")
+        return self._to_string("rfc850", locale="en")
 
     def to_rfc1036_string(self) -> str:
         """
         Format the instance as RFC 1036.
         """
-        return self._to_string("rfc1036")
+        return self._to_string("rfc1036", locale="en")
 
     def to_rfc1123_string(self) -> str:
         """
         Format the instance as RFC 1123.
         """
-        return self._to_string("rfc1123")
+        return self._to_string("rfc1123", locale="en")
 
     def to_rfc2822_string(self) -> str:
         """
         Format the instance as RFC 2822.
         """
-        return self._to_string("rfc2822")
+        return self._to_string("rfc2822", locale="en")
 
     def to_rfc3339_string(self) -> str:
         """
@@ -460,7 +460,7 @@ class DateTime(datetime.datetime, Date):
         """
         Format the instance as RSS.
         """
-        return self._to_string("rss")
+        return self._to_string("rss", locale="en")
 
     def to_w3c_string(self) -> str:
         """
